@@ -31,6 +31,11 @@ def run_shape(start, mode, direction, dp, desc, ratio=None, res=None,
     method, args, kw, info = hist.build_shape(g, desc)
     L = hist.shape_length(info)
     if res is None:
+        if info.get("kind") == "helix" and info.get("turns"):
+            # a polyline can only show the number of turns if it has several
+            # vertices per turn: at least 8 per turn (the turn count is taken
+            # from the request as built, e.g. after a "land on Z = 0" rewrite)
+            ratio = max(ratio, 8.0 * info["turns"])
         res = L / ratio
         if not res > 1e-300:
             res = 0.05      # zero-length / subnormal-length request: any valid resolution
